@@ -710,6 +710,54 @@ def run_direct(ctx, env, entry, fn):
     return ok
 
 
+# ----------------------------------------------------------------------------- audit (single lean process)
+AUDIT_MODULES = [("GojaModel.C07.Props", 22), ("GojaModel.C07.PropsElem", 13), ("GojaModel.C07.PropsHist", 4),
+                 ("GojaModel.C07.PropsMethods", 14), ("GojaModel.C07.PropsSearch", 8), ("GojaModel.C07.PropsBounds", 5),
+                 ("GojaModel.C07.PropsMerge", 4), ("GojaModel.C07.PropsGoSlice", 5), ("GojaModel.C07.Tie", 4)]
+
+
+def audit_all(ctx, modules, timeout=1800):
+    """Same obligations as vlib.Ctx.audit (one per theorem: axioms within the allowed set; per module: expected
+    minimum number of theorems; once: no forbidden constructs), but with a single `lean` run for all modules."""
+    import re
+    d = os.path.join(BUILD, "audit")
+    os.makedirs(d, exist_ok=True)
+    f = os.path.join(d, "GojaModel_C07_all.lean")
+    with open(f, "w") as fh:
+        fh.write("import GojaModel.Audit\n" + "".join("import %s\n" % m for m, _ in modules) +
+                 "".join("#audit_module %s\n" % m for m, _ in modules))
+    ctx.checker_cmds.append("cd lean && lake env lean <audit:%s>" % ",".join(m for m, _ in modules))
+    rc, out, err = sh(["lake", "env", "lean", f], cwd=LEAN, timeout=timeout)
+    # attribute theorems to modules by the AUDIT-DONE markers (output is in order)
+    counts, cur = {}, 0
+    for line in out.splitlines():
+        m = re.search(r"AUDIT-DONE (\S+) theorems=(\d+)", line)
+        if m:
+            counts[m.group(1)] = int(m.group(2))
+            continue
+        m = re.search(r"AUDIT (\S+) ::(.*)$", line)
+        if m:
+            axs = set(m.group(2).split())
+            bad = sorted(axs - ALLOWED_AXIOMS)
+            ctx.obligation("thm:" + m.group(1), "theorem", not bad,
+                           ("axioms: " + " ".join(sorted(axs))) if not bad else ("forbidden axioms: " + " ".join(bad)))
+    for mod, n in modules:
+        if mod not in counts:
+            ctx.obligation("audit:" + mod, "theorem", False, "module not audited: " + (out + err)[-800:])
+        elif counts[mod] < n:
+            ctx.obligation("audit:" + mod, "theorem", False, "only %d theorems found, expected >= %d" % (counts[mod], n))
+    if rc != 0:
+        ctx.obligation("audit:lean-run", "theorem", False, (out + err)[-1500:])
+    hits = []
+    for dd in [os.path.join(LEAN, "GojaModel", ctx.prop), os.path.join(LEAN, "GojaModel", "Base")]:
+        for dp, _, fns in os.walk(dd):
+            for fn in fns:
+                if fn.endswith(".lean"):
+                    hits += ctx._grep_forbidden(os.path.join(dp, fn))
+    ctx.obligation("audit:no-sorry-axiom-native:" + ctx.prop, "theorem", not hits, "; ".join(hits[:10]))
+    return counts
+
+
 # ----------------------------------------------------------------------------- main
 def main(ctx):
     env = Env()
@@ -735,17 +783,13 @@ def main(ctx):
         time.sleep(30)
     ok, errs = ctx.lake_build(["GojaModel.C07.Props", "GojaModel.C07.PropsElem", "GojaModel.C07.PropsHist", "GojaModel.C07.PropsMethods",
                                 "GojaModel.C07.PropsSearch", "GojaModel.C07.PropsBounds", "GojaModel.C07.PropsMerge", "GojaModel.C07.PropsGoSlice", "GojaModel.C07.Tie", "model_c07"])
-    # the audits (one `lean` run per module) and the harness build are independent: run them side by side
-    with ThreadPoolExecutor(max_workers=10) as ex:
-        futs = []
-        if ok:
-            for mod, n in (("GojaModel.C07.Props", 22), ("GojaModel.C07.PropsElem", 13), ("GojaModel.C07.PropsHist", 4),
-                           ("GojaModel.C07.PropsMethods", 14), ("GojaModel.C07.PropsSearch", 8), ("GojaModel.C07.PropsBounds", 5),
-                           ("GojaModel.C07.PropsMerge", 4), ("GojaModel.C07.PropsGoSlice", 5), ("GojaModel.C07.Tie", 3)):
-                futs.append(ex.submit(ctx.audit, mod, n))
+    # ONE lean process audits all theorem modules (one file, several #audit_module lines); the harness build
+    # runs beside it
+    with ThreadPoolExecutor(max_workers=2) as ex:
+        fa = ex.submit(audit_all, ctx, AUDIT_MODULES) if ok else None
         hf = ex.submit(ctx.go_build)
-        for f in futs:
-            f.result()
+        if fa:
+            fa.result()
         env.harness = hf.result()
     if ok and thorough:
         ctx.leanchecker("GojaModel.C07.PropsHist")
